@@ -31,6 +31,17 @@ CLAIMED = {
         "6 C02",
         TECH,
     ),
+    "C04": (
+        "Bounded solver-based check: Pipeline.map(run_folder=F, parallel=False) on MAP-T templates x storage choices (file_array, dict, dict_sub, "
+        "per-output mixes with tuple keys) with persist_memory symbolic, then load_outputs for every output (single and multi-name, twice) equals "
+        "the denotation for ALL integer inputs; RunInfo.load(F) restores inputs, defaults, output names, MapSpec strings, shapes, masks, internal "
+        "shapes and the per-output storage choice; init_store of the reloaded object yields the same storage classes and geometry; loading is "
+        "idempotent and runs no user function; an unpersisted memory storage does not reload values.",
+        "Trusted: z3, CrossHair path exhaustion and builtin models; cloudpickle replaced by a token table on a real tmpfs directory; JSON encoded "
+        "natively after realisation. Same process only. Outside: fresh interpreter, load_xarray_dataset, real shared_memory_dict, zarr.",
+        "6 C04",
+        TECH,
+    ),
     "C07": (
         "Bounded solver-based check: normalize_key and select_by_mask are confirmed over all paths for every mask of rank <= 3 with "
         "unbounded integer keys and axis sizes; DictArray and FileArray operation sequences (two dumps, one read of every kind, "
